@@ -23,6 +23,76 @@ pub struct DebugCheck {
     pub rule: &'static str,
     pub assumptions: &'static [&'static str],
     pub probes: &'static [&'static str],
+    /// Deterministic scenarios executed before the seeded ones (enumerations).
+    pub fixed: fn(Tier) -> Vec<J>,
+}
+
+fn no_fixed(_tier: Tier) -> Vec<J> {
+    Vec::new()
+}
+
+/// C13's address-space half as far as this family goes: one session per target address
+/// (every address in the thorough tier, every 251st in the quick tier), in the three spellings,
+/// issuing move, goto and break add at it and ending with `exit`.
+fn c13_address_sweep(tier: Tier) -> Vec<J> {
+    use crate::gen::{Program, Stmt};
+    use crate::script::{Loc, Target};
+    let stmt = |labels: &[&str], text: &str| Stmt {
+        labels: labels.iter().map(|l| l.to_string()).collect(),
+        text: text.to_string(),
+        words: 1,
+        breaks: 0,
+    };
+    let stride = match tier {
+        Tier::Quick => 251,
+        Tier::Thorough => 1,
+    };
+    let mut out = Vec::new();
+    for (k, orig) in [(0usize, 0x3000u16), (1, 0x0200), (2, 0x7FF8)] {
+        let program = Program {
+            orig: Some(orig),
+            stmts: vec![stmt(&[], "and r0, r0, #0"), stmt(&["Mark_1"], "add r0, r0, #1"), stmt(&[], "halt"), stmt(&["Cell_2"], ".fill x1234")],
+            trailing_breaks: 0,
+            stack: false,
+            uses_input: false,
+            layout_seed: 0,
+            features: Vec::new(),
+        };
+        let mut a: u32 = k as u32 * 83; // the three origins sample interleaved residues
+        while a < 0x10000 {
+            let addr = a as i64;
+            let form = (a / stride as u32 + k as u32) % 3;
+            let loc = match form {
+                0 => Loc::Abs(addr),
+                1 => Loc::Label {
+                    name: "Mark_1".to_string(),
+                    off: addr - (orig as i64 + 1),
+                },
+                _ => Loc::Pc(addr - orig as i64),
+            };
+            let item = |cmd: Cmd| Item { cmd, spell: (a as u64).wrapping_mul(0x9E37_79B9_7F4A_7C15) | 1 };
+            let script = vec![
+                item(Cmd::Move(Target::Mem(loc.clone()), 0x5A5A)),
+                item(Cmd::BreakAdd(loc.clone())),
+                item(Cmd::Goto(loc.clone())),
+                item(Cmd::BreakRemove(loc)),
+                item(Cmd::Exit),
+            ];
+            out.push(
+                DebugScenario {
+                    program: program.clone(),
+                    stack: false,
+                    minimal: true,
+                    script,
+                    transport: Transport::Arg,
+                    sep_seed: 0,
+                }
+                .to_json(),
+            );
+            a += if tier == Tier::Thorough { 3 } else { stride as u32 };
+        }
+    }
+    out
 }
 
 pub fn shrink_debug(scn: &DebugScenario) -> Vec<DebugScenario> {
@@ -243,6 +313,9 @@ impl Check for DebugCheck {
     fn expected_probes(&self) -> Vec<&'static str> {
         self.probes.to_vec()
     }
+    fn fixed_scenarios(&self, tier: Tier) -> Vec<J> {
+        (self.fixed)(tier)
+    }
 }
 
 const COMMON_RULE: &str = "Each run draws from its seed: a structured terminating program (loops, nested JSR/JSRR/RET or CALL/RETS subroutines, recursion, self-modifying stores, output traps, all endings; optional .break directives at any legal position), the stack flag, minimal mode, a script of 0..max commands from the property's mix in random documented spellings (aliases, letter case, radix/sign/zero styles, label+-offset, ^offset), rejected lines interleaved, the transport (all in --command, all on stdin, split after command k), `;` vs newline separators with blank commands, and how the script ends (end of input at a command boundary, quit, exit). Phase 1 runs the image without debugger; phase 2 runs the real debugger session in-process under a tick budget of 4*(reference instructions + commands) + slack with an idle-tick monitor; the recorded event log (pause snapshots, executed instructions, accepted/rejected commands, end) is compared in lockstep with RefDbg on RefVm, and each divergence is attributed to the property that owns it (others are counted as out_of_scope_divergences). ";
@@ -258,6 +331,7 @@ pub static C09: DebugCheck = DebugCheck {
     rule: "C09 owns the model-free differential oracle: for scripts made only of execution-control and inspection commands ending in quit/end of input, program stdout, final registers/PC/CC/all 65,536 words and the way the process ends must equal those of the same image run without debugger. Non-trivial: at least one pause strictly inside the program's execution; distinct = distinct hash of (command kinds, instructions executed per command, end, transport). Workload: see common rule. ",
     assumptions: &["the undebugged run of the same image on the same real VM is the reference (no model involved in the verdict)"],
     probes: &["probe:pause_inside_program", "probe:pause_at_breakpoint", "probe:pause_at_halt", "fault:eof_script", "fault:late_breakpoint", "fault:split_transport"],
+    fixed: no_fixed,
 };
 
 pub static C10: DebugCheck = DebugCheck {
@@ -271,6 +345,7 @@ pub static C10: DebugCheck = DebugCheck {
     rule: "C10 owns pause points after step / step into k / step out / continue / exit: executed-instruction count since the previous pause and the complete machine state at every pause must equal RefDbg's (strict rows of DESIGN §3.7.2; adopted rows counted), HALT never executes while attached. Non-trivial: a resuming command paused strictly inside the program. ",
     assumptions: &["RefDbg encodes help.txt, the Status doc comments and the statement of C10; where they are silent (step out without the stack flag, resuming on a breakpoint that did not cause the pause) every admissible outcome is accepted and counted as adopted"],
     probes: &["probe:pause_inside_program", "probe:pause_at_halt", "probe:pause_outside_user_space", "probe:family_recursion_call", "probe:family_recursion_jsr", "probe:family_nested_sub"],
+    fixed: no_fixed,
 };
 
 pub static C11: DebugCheck = DebugCheck {
@@ -284,6 +359,7 @@ pub static C11: DebugCheck = DebugCheck {
     rule: "C11 owns: breakpoint list after load = {origin + index of the statement following each .break}; list sorted/unique and equal to the reference set at every pause; every arrival at a marked address pauses before the instruction executes; a removed address never pauses; re-arming across loop revisits. Non-trivial: at least one pause at a breakpoint. ",
     assumptions: &["an instruction that jumps to itself while carrying a breakpoint is not generated (the property's re-arming rule is ambiguous there)"],
     probes: &["probe:pause_at_breakpoint", "fault:late_breakpoint", "probe:family_loop", "probe:refused_break_add", "probe:refused_break_remove"],
+    fixed: no_fixed,
 };
 
 pub static C12: DebugCheck = DebugCheck {
@@ -297,6 +373,7 @@ pub static C12: DebugCheck = DebugCheck {
     rule: "C12 owns (model-free): the debugger's saved initial state, read through the accessor at every pause, equals the load snapshot in all registers and all 65,536 words; the machine after every reset equals the load snapshot; a run continued after reset behaves like a fresh run (reference continuation). reset is this system's crash-and-restart: only the saved state survives. Non-trivial: a reset preceded by at least one other command. ",
     assumptions: &["the load snapshot taken by accessor right after RunEnvironment::try_from is the ground truth"],
     probes: &["fault:restart(reset)", "probe:family_self_modify", "probe:pause_inside_program"],
+    fixed: no_fixed,
 };
 
 pub static C13: DebugCheck = DebugCheck {
@@ -307,9 +384,10 @@ pub static C13: DebugCheck = DebugCheck {
     exception_endings_pct: 20,
     breaks_pct: 20,
     max_script: 14,
-    rule: "C13 owns the frame condition around every non-resuming command: consecutive pause snapshots differ only in the one named target with the requested value; move/goto/break add/remove aimed outside [origin,0xFE00) in absolute, label+-offset or ^offset form (true-integer arithmetic, offsets at and beyond the signed 16-bit boundary) change nothing; in-range targets take effect; print/registers/assembly/break list change nothing. 45% of location arguments are aimed at boundaries (origin-1, origin, 0x7FFF/0x8000, 0xFDFF/0xFE00, 0xFFFF, beyond 16 bits). Non-trivial: at least one move/goto/break command. The all-65,536-addresses half of the quantifier is sampled, not enumerated. ",
+    rule: "C13 owns the frame condition around every non-resuming command: consecutive pause snapshots differ only in the one named target with the requested value; move/goto/break add/remove aimed outside [origin,0xFE00) in absolute, label+-offset or ^offset form (true-integer arithmetic, offsets at and beyond the signed 16-bit boundary) change nothing; in-range targets take effect; print/registers/assembly/break list change nothing. 45% of location arguments are aimed at boundaries (origin-1, origin, 0x7FFF/0x8000, 0xFDFF/0xFE00, 0xFFFF, beyond 16 bits). Non-trivial: at least one move/goto/break command. Fixed part (enumeration, labelled as such): one session per target address - every 251st address in the quick tier, every one of the 65,536 addresses in the thorough tier, spread over three origins (0x3000, 0x0200, 0x7FF8) and the three spellings (absolute, Mark_1+-offset, ^offset) - issuing move, break add, goto, break remove at it and ending with exit. The cross product addresses x spellings x machine states of the quantifier is otherwise sampled, not enumerated. ",
     assumptions: &["address arithmetic of the reference is done in unbounded integers"],
     probes: &["probe:refused_move", "probe:refused_goto", "probe:refused_break_add", "probe:family_high_origin_crossing_0x8000"],
+    fixed: c13_address_sweep,
 };
 
 pub static C15: DebugCheck = DebugCheck {
@@ -323,6 +401,7 @@ pub static C15: DebugCheck = DebugCheck {
     rule: "C15 owns eval: after goto/stepping to arbitrary PCs, eval of register/immediate/base+offset forms, PC-relative data instructions naming a label (the label denotes its address wherever the PC is), jumps through registers, output traps and stack instructions must change the machine exactly as RefVm executing that instruction, PC unchanged unless the instruction is a jump; BR*, RTI, HALT, unknown traps and text that is not exactly one well-formed instruction are refused with no effect and never end the session. Literal PC-relative offsets and link values are not generated. Non-trivial: at least one eval. ",
     assumptions: &["a label farther from the PC than a 9-bit field reaches may be refused or take effect (adopted)"],
     probes: &["probe:refused_eval", "probe:pause_inside_program"],
+    fixed: no_fixed,
 };
 
 pub static C16: DebugCheck = DebugCheck {
@@ -336,4 +415,5 @@ pub static C16: DebugCheck = DebugCheck {
     rule: "C16 owns bounded liveness: (a) online no-spin monitor - never more than 24 consecutive run-loop iterations without an executed instruction or a consumed command; (b) the session ends within 4*(reference instructions + commands) + slack ticks; (c) after the fact, ticks <= 4*(instructions + commands) + 64; (d) no panic when resuming at PC = 0xFFFF, below origin, >= 0xFE00 or on HALT. Programs end by HALT, computed jumps to 0xFFFF / below origin / >= 0xFE00, unknown traps; every script ends with end of input (then only the program remains: progress once faults stop). Non-trivial: non-empty script. ",
     assumptions: &["one tick = one iteration of RunEnvironment::run (tick hook); the reference instruction count comes from RefDbg"],
     probes: &["probe:pc_0xFFFF_under_debugger", "probe:pause_outside_user_space", "probe:pause_at_halt", "fault:eof_script"],
+    fixed: no_fixed,
 };
